@@ -551,7 +551,16 @@ fn gen_timed(r: &mut StdRng, family: usize) -> Timed {
     let l = |id: usize, items: Vec<(usize, Held)>, t: i64| Ev::Listen { id, items, timeout_ms: t };
     let c = |kind: Change, key: usize| Ev::Change { kind, key };
     let d = *[200i64, 300, 400, 600, 800].choose(r).unwrap();
-    match family % 9 {
+    match family % 10 {
+        9 => {
+            // a key many clients have polled before: n quiet polls that ran out (their entries stay behind in the key's listener
+            // list until something sweeps them), then one more poll, then the change it waits for
+            let n = *[3usize, 15, 16, 17, 20, 33].choose(r).unwrap();
+            let mut events: Vec<(i64, Ev)> = (0..n).map(|i| ((i % 4) as i64 * 10, l(i, vec![(0, Held::Current)], 200))).collect();
+            events.push((1000, l(n, vec![(0, Held::Current)], 800)));
+            events.push((1150, c(*[Change::PubNew, Change::Remove].choose(r).unwrap(), 0)));
+            Timed { nkeys: 1, init: vec![true], events }
+        }
         0 => Timed { nkeys: 1, init: vec![true], events: vec![(0, l(0, vec![(0, Held::Current)], d))] },
         1 => Timed { nkeys: 1, init: vec![true], events: vec![(0, l(0, vec![(0, Held::Current)], d)), (d - 120, c(*[Change::PubNew, Change::Remove].choose(r).unwrap(), 0))] },
         2 => Timed { nkeys: 1, init: vec![true], events: vec![(0, l(0, vec![(0, Held::Current)], d)), (d + 150, c(Change::PubNew, 0))] },
@@ -703,7 +712,13 @@ pub fn run(args: &Args) -> anyhow::Result<()> {
         // ---------------- sampled larger scenarios
         if only_base.is_none() {
             for _ in 0..n_sampled {
-                let base = gen_base(&mut r, 6, 3, 9);
+                // one scenario in twelve is a crowd: up to 40 listeners sharing one or two keys
+                let crowd = r.gen_range(0..12) == 0;
+                let base = if crowd { gen_base(&mut r, 40, 2, 5) } else { gen_base(&mut r, 6, 3, 9) };
+                if crowd {
+                    rep.count("crowd_scenarios(17..40 listeners)", 1);
+                    rep.shape(format!("crowd/{}-listeners", base.events.iter().filter(|e| matches!(e, Ev::Listen { .. })).count() / 10 * 10));
+                }
                 let mut order = base.events.clone();
                 order.shuffle(&mut r);
                 uniq += 1;
